@@ -261,6 +261,36 @@ var c11Scripts = map[string][]c11Step{
 		}),
 		mut("C1 status update", []ckey{claimKey("c1")}, updClaim("c1", func(n *v1.NodeClaim) { n.StatusConditions().SetTrue(v1.ConditionTypeRegistered) })),
 	},
+	// a pod that is being deleted gracefully (deletionTimestamp set, still Running) keeps its requests, host ports and
+	// deletion cost on the node until it is really gone, whichever of the Node / Pod reconcilers looked last
+	"pod-terminating-gracefully-while-node-is-updated": {
+		mut("C1+N1", []ckey{claimKey("c1"), nodeKey("n1")}, func(x *c11Run) {
+			addObj(c11Claim("c1", "a", "pid1"))(x)
+			addObj(c11Node("n1", "a", "pid1", true))(x)
+		}),
+		mut("bind P1 (deletion cost), P2 (host port)", []ckey{podKey("p1"), podKey("p2")}, func(x *c11Run) {
+			addObj(c11Pod("p1", "n1", "cost"))(x)
+			addObj(c11Pod("p2", "n1", "hostport"))(x)
+		}),
+		mut("P1 deleted gracefully (still running)", []ckey{podKey("p1")}, updPod("p1", func(p *corev1.Pod) {
+			dt := metaT(world.Epoch.Add(30 * time.Second))
+			p.DeletionTimestamp = &dt
+			p.Finalizers = []string{"verif.io/terminating"}
+		})),
+		mut("N1 heartbeat", []ckey{nodeKey("n1")}, updNode("n1", func(n *corev1.Node) { n.Labels["beat"] = "1" })),
+		mut("P2 deleted gracefully (still running)", []ckey{podKey("p2")}, updPod("p2", func(p *corev1.Pod) {
+			dt := metaT(world.Epoch.Add(40 * time.Second))
+			p.DeletionTimestamp = &dt
+			p.Finalizers = []string{"verif.io/terminating"}
+		})),
+		mut("P1 gone", []ckey{podKey("p1")}, func(x *c11Run) {
+			p := &corev1.Pod{}
+			if err := x.w.Raw.Get(x.w.Ctx, clientKey("default", "p1"), p); err == nil {
+				x.w.EnvDelete(p)
+			}
+		}),
+		mut("N1 heartbeat 2", []ckey{nodeKey("n1")}, updNode("n1", func(n *corev1.Node) { n.Labels["beat"] = "2" })),
+	},
 	"csinode-limit-and-pvc": {
 		mut("C1+N1 with CSINode limit 1", []ckey{claimKey("c1"), nodeKey("n1")}, func(x *c11Run) {
 			addObj(c11Claim("c1", "a", "pid1"))(x)
